@@ -65,6 +65,7 @@ def check(rep: Report, ctx: Ctx) -> None:
     r113(rep, ctx)
     r114(rep, ctx)
     r115(rep, ctx)
+    r116(rep, ctx)
 
 
 def r18(rep: Report, ctx: Ctx) -> None:
@@ -803,3 +804,23 @@ def r115(rep: Report, ctx: Ctx) -> None:
     c07.rewiring_order(rep, ctx, "R1.15")
     from .loopspec import TABLE, check_table
     check_table(rep, ctx, "R1.15", list(TABLE))
+
+
+def r116(rep: Report, ctx: Ctx) -> None:
+    """Table-driven (sa/rules/walkspec.py): the translation of the inferred
+    gate tree into node logic, the initial state of a logic block, and the
+    validation of AND / OR merges against the predecessor sets."""
+    from .effspec import check_table
+    from .walkspec import TABLE
+    rep.rule("R1.16", "gate tree -> node logic: one arm per kind of tree "
+             "node, every child visited, leaves attached in the direction "
+             "asked for", 9)
+    check_table(rep, ctx, "R1.16", TABLE,
+                ["Node._load_logic_into_logic_list"])
+    rep.rule("R1.17", "a logic block starts as a faithful, private mirror of "
+             "its logic node", 10)
+    check_table(rep, ctx, "R1.17", TABLE, ["LogicBlockHolder.__init__"])
+    rep.rule("R1.18", "AND / OR merges are validated against the predecessor "
+             "sets of the merge node (multiset of all arriving paths)", 5)
+    check_table(rep, ctx, "R1.18", TABLE,
+                ["LogicBlockHolder._check_merge_is_correct"])
